@@ -1262,6 +1262,15 @@ def static_shapes():
     A(P("lz-two-statics", SJ(2) + JJ(2) + [LZ("Z0")], [LZ("Z0"), LZ("Z1", "yield")], [LZ("Z1", "yield")]))
     A(P("lz-racing-init", SJ(2) + JJ(2), [LZ("Z1", "yield")], [LZ("Z1", "yield")]))
     A(P("lz-racing-init-3", SJ(3) + JJ(3), [LZ("Z1", "yield")], [LZ("Z1", "yield")], [LZ("Z1", "yield")]))
+    # the initialiser has a scheduling point that is NOT a yield (an RMW on an atomic nobody reads): the racing initialisers
+    # must still end up with one published instance
+    RZ = lambda: I("lzget", "Z1", k="rmw")
+    A(dict(P("lz-racing-init-rmw", SJ(2) + JJ(2), [st("lzc", 5), RZ()], [st("lzc", 6), RZ()]), atoms=["lzc"]))
+    A(dict(P("lz-racing-init-rmw-3", SJ(3) + JJ(3), [fadd("x", 1), RZ()], [st("lzc", 5), RZ()], [st("lzc", 6), RZ()]), atoms=["lzc"]))
+    # (no cell written by the initialiser here: whether loom explores two OVERLAPPING initialisers depends on the threads being
+    # dependent elsewhere - an RMW inside the initialiser of a thread that does not initialise is never executed, so DPOR sees no
+    # conflict; C17 claims soundness of what is explored, not that exploration)
+    A(dict(P("lz-racing-init-rmw-data", SJ(2) + JJ(2), [st("lzc", 5), RZ(), I("lzread", "Z1"), LZ("Z1", "rmw")], [st("lzc", 6), RZ(), I("lzread", "Z1")]), atoms=["lzc"]))
     A(P("lz-publishes-data", SJ(2) + JJ(2), [LZ("Z0"), rd("c_Z0")], [LZ("Z0"), rd("c_Z0")]))
     A(P("lz-racy-publishes-data", SJ(2) + JJ(2), [LZ("Z1", "yield"), rd("c_Z1")], [LZ("Z1", "yield"), rd("c_Z1")]))
     LR = lambda z: I("lzread", z)
